@@ -11,7 +11,9 @@
  *
  * script:  reset <name>
  *          config <type 0..3> <role 0..2> <fmt> <op> <gk> <variant> <seed> <r0>
- *          set <property index> <v> <r> <14 wanted values>
+ *          set <property index> <v> <r> <16 wanted values>
+ *              property pe / px: no library call -- the client's palettes / the pixel buffer of L are rewritten
+ *              in place to contents class v (memory the image refers to but does not copy)
  *          (abstract values: spec/Image.tla part 2)
  *          end                                                                                    */
 #include "vcommon.h"
@@ -20,8 +22,8 @@
 
 enum { T_BITS, T_INDEXED, T_GRADIENT, T_SOLID };
 enum { R_SRC, R_MASK, R_DST };
-enum { P_T, P_F, P_R, P_C, P_SC, P_CC, P_AM, P_AO, P_CA, P_ACC, P_PAL, P_D, P_DOF, P_MA, NPROP };
-static const char *pname[NPROP] = { "t", "f", "r", "c", "sc", "cc", "am", "ao", "ca", "acc", "pal", "d", "dof", "ma" };
+enum { P_T, P_F, P_R, P_C, P_SC, P_CC, P_AM, P_AO, P_CA, P_ACC, P_PAL, P_D, P_DOF, P_MA, P_PE, P_PX, NPROP };
+static const char *pname[NPROP] = { "t", "f", "r", "c", "sc", "cc", "am", "ao", "ca", "acc", "pal", "d", "dof", "ma", "pe", "px" };
 static const char *tname[4] = { "bits", "indexed", "gradient", "solid" };
 static const char *rname[3] = { "src", "mask", "dst" };
 
@@ -38,6 +40,8 @@ static int cfg_type, cfg_role, cfg_fmt, cfg_op, cfg_gk, cfg_variant, cfg_seed;
 static bimg_t L, M[5], D, S;	/* M[1..4]: the long-lived alpha-map candidates A, B, C (wide format), D */
 static uint8_t *D0;		/* initial contents of D */
 static pixman_indexed_t pal[4];		/* [3]: the contents of [1] at another address */
+static pixman_indexed_t pal0[4];	/* their initial contents (every entry opaque) */
+static uint8_t *L0;			/* initial pixels of L */
 
 /* ---- validate hook ---- */
 typedef struct { const void *p; int wd; uint32_t fl, efc; } vrec_t;
@@ -165,14 +169,23 @@ make_nonbits (void)
     pixman_point_fixed_t p1 = { pixman_int_to_fixed (1), pixman_int_to_fixed (1) };
     pixman_point_fixed_t p2 = { pixman_int_to_fixed (5), pixman_int_to_fixed (3) };
     pixman_color_t col = { 0x4000, 0xa000, 0xffff, (uint16_t)((cfg_variant & 2) ? 0xffff : 0x9000) };
+    pixman_gradient_stop_t scratch[3];	/* the client's stop array: copied by the library, overwritten after the call */
+    pixman_image_t *im;
     if (cfg_type == T_SOLID)
-	return pixman_image_create_solid_fill (&col);
+    {
+	im = pixman_image_create_solid_fill (&col);
+	memset (&col, 0x5b, sizeof col);
+	return im;
+    }
+    memcpy (scratch, st, ns * sizeof scratch[0]);
     switch (cfg_gk % 3)
     {
-    case 0: return pixman_image_create_linear_gradient (&p1, &p2, st, ns);
-    case 1: return pixman_image_create_radial_gradient (&p1, &p2, pixman_fixed_1 / 2, pixman_int_to_fixed (3), st, ns);
-    default: return pixman_image_create_conical_gradient (&p2, pixman_int_to_fixed (40), st, ns);
+    case 0: im = pixman_image_create_linear_gradient (&p1, &p2, scratch, ns); break;
+    case 1: im = pixman_image_create_radial_gradient (&p1, &p2, pixman_fixed_1 / 2, pixman_int_to_fixed (3), scratch, ns); break;
+    default: im = pixman_image_create_conical_gradient (&p2, pixman_int_to_fixed (40), scratch, ns); break;
     }
+    memset (scratch, 0x5b, sizeof scratch);
+    return im;
 }
 
 /* creates the image under test (or a fresh replica of it, pixels copied from `like`) */
@@ -340,6 +353,65 @@ set_clip_v (pixman_image_t *im, int vv)
     return r;
 }
 
+/* ---- client-owned memory rewritten in place (no library call): contents are a function of the class v,
+ * the configuration and the initial pixels only ---- */
+static uint32_t
+alpha_word (pixman_format_code_t fmt)	/* the alpha bits of every pixel in a 32-bit word of the buffer */
+{
+    int bpp = PIXMAN_FORMAT_BPP (fmt), a = PIXMAN_FORMAT_A (fmt), k;
+    int rgb = PIXMAN_FORMAT_R (fmt) + PIXMAN_FORMAT_G (fmt) + PIXMAN_FORMAT_B (fmt);
+    uint32_t m, w = 0;
+    if (a == 0 || bpp > 32 || PIXMAN_FORMAT_TYPE (fmt) == PIXMAN_TYPE_COLOR || PIXMAN_FORMAT_TYPE (fmt) == PIXMAN_TYPE_GRAY)
+	return 0;
+    m = a >= 32 ? 0xffffffffu : ((1u << a) - 1);
+    if (PIXMAN_FORMAT_TYPE (fmt) != PIXMAN_TYPE_BGRA && PIXMAN_FORMAT_TYPE (fmt) != PIXMAN_TYPE_RGBA)
+	m <<= rgb;
+    for (k = 0; k < 32; k += bpp)
+	w |= m << k;
+    return w;
+}
+
+static void
+edit_pixels (bimg_t *x, int v)
+{
+    uint32_t am = alpha_word (x->fmt), *w = x->buf;
+    size_t i, n = x->bytes / 4;
+    if (!x->buf || !L0)
+	return;
+    memcpy (x->buf, L0, x->bytes);				/* 0: the initial pixels */
+    for (i = 0; i < n; i++)
+    {
+	if (v == 1 || v == 2) w[i] |= am;			/* every alpha opaque */
+	if (v == 3) w[i] = 0;					/* all transparent */
+	if (v == 4) w[i] = (w[i] ^ 0x3c3c3c3cu) | am;		/* opaque, other colours */
+    }
+    if (v == 2)
+	w[0] = (w[0] & ~am) | (am & 0x7f7f7f7fu);		/* the first pixel(s) translucent */
+}
+
+static void
+edit_palettes (int v)
+{
+    int k, i, e0, e1, bpp = L.buf ? PIXMAN_FORMAT_BPP (L.fmt) : 8;
+    /* an entry in use: the index of the first pixel of the initial buffer (read plainly, and through the accessors) */
+    e0 = L0 ? (L0[0] & ((1 << bpp) - 1)) : 0;
+    e1 = (e0 ^ 0x5a) & ((1 << bpp) - 1);
+    for (k = 0; k < 4; k++)
+    {
+	memcpy (pal[k].rgba, pal0[k].rgba, sizeof pal[k].rgba);
+	for (i = 0; i < 256; i++)
+	{
+	    uint32_t c = pal0[k].rgba[i];
+	    if (v == 1 && (i == e0 || i == e1))
+		pal[k].rgba[i] = 0x40000000u | ((c >> 2) & 0x003f3f3fu);	/* one used entry translucent */
+	    if (v == 2 && (i == e0 || i == e1))
+		pal[k].rgba[i] = c ^ 0x00f0310cu;				/* ... another opaque colour */
+	    if (v == 3)
+		pal[k].rgba[i] = 0x80000000u | ((c >> 1) & 0x007f7f7fu);	/* every entry translucent */
+	}
+    }
+}
+
 static const pixman_dither_t dithers[3] = { PIXMAN_DITHER_NONE, PIXMAN_DITHER_ORDERED_BAYER_8, PIXMAN_DITHER_GOOD };
 
 /* one setter call on image x (whose alpha-map candidates are a and b); want = wanted values after the call */
@@ -374,6 +446,9 @@ apply_prop (bimg_t *x, bimg_t *maps, int p, int v, const int *want)
 	break;
     }
     case P_MA: pixman_image_set_accessors (maps[1].img, v ? rd : NULL, v ? wr : NULL); break;
+    /* client memory: rewritten behind the long-lived image's back; the replica is created over the current contents */
+    case P_PE: if (x == &L) edit_palettes (v); break;
+    case P_PX: if (x == &L) edit_pixels (x, v); break;
     }
 }
 
@@ -501,6 +576,7 @@ init_palettes (void)
 	}
     }
     pal[3] = pal[1];
+    memcpy (pal0, pal, sizeof pal0);
 }
 
 static void
@@ -512,6 +588,8 @@ teardown (void)
 	drop (&M[k]);
     free (D0);
     D0 = NULL;
+    free (L0);
+    L0 = NULL;
 }
 
 int
@@ -548,6 +626,12 @@ main (int argc, char **argv)
 	    if (cfg_type < 0 || cfg_type > 3 || cfg_role < 0 || cfg_role > 2) return 3;
 	    vrng_seed (&rng, (uint64_t)cfg_seed);
 	    make_subject (&L, NULL, &rng);
+	    memcpy (pal, pal0, sizeof pal);
+	    if (L.buf)
+	    {
+		L0 = malloc (L.bytes);
+		memcpy (L0, L.buf, L.bytes);
+	    }
 	    make_bits (&M[1], PIXMAN_a8, 6, 5, &rng);
 	    make_bits (&M[2], (cfg_variant & 8) ? PIXMAN_a4 : PIXMAN_a8r8g8b8, 5, 4, &rng);
 	    make_bits (&M[3], (cfg_variant & 2) ? PIXMAN_a2r10g10b10 : PIXMAN_rgba_float, 5, 4, &rng);
